@@ -20,7 +20,14 @@
 (*    target : target samplerate                    (resamp),               *)
 (*    pre    : rate of a preliminary resample of the same source (0: none), *)
 (*    hist, N2, base2 : history of the loads, see FileRow,                  *)
-(*    decl   : samplerate declared on a hand-built Recording (0: from_file)]*)
+(*    decl   : samplerate declared on a hand-built Recording (0: from_file), *)
+(*    ops    : kind "chain": operations applied one after the other to the  *)
+(*             source array, <<name, a, b>> with name = "resamp" (a = target *)
+(*             rate), "filter" (a, b = low / high cutoff, 0 = none), "spec"  *)
+(*             (a, b = window, hop in 1/tden s), "order" (dims rotated left  *)
+(*             by a positions, so that time is the first / middle / last     *)
+(*             dimension); the axes of the FINAL array are judged by the     *)
+(*             Time* / Freq* clauses, its start against the source's start]  *)
 (***************************************************************************)
 EXTENDS Lattice
 
@@ -101,6 +108,7 @@ ClipReqI(c, n, t0, rows, d) ==
 (***************************************************************************)
 MustProduceN(c, srcOk, srcN) ==
     CASE c.kind \in {"rec", "clip", "long", "longclip"} -> TRUE
+      [] c.kind = "chain"  -> FALSE          \* chains: only the axes of the final array are judged
       [] c.kind = "resamp" -> srcOk /\ srcN >= 2 /\ (srcN * c.target >= 2 * Sr(c) \/ (ExactCo(c) /\ srcN * c.target >= Sr(c)))
       [] c.kind = "spec"   -> /\ srcOk /\ Exact(c)
                               /\ c.h * Sr(c) >= c.tden /\ c.w * Sr(c) >= c.tden
